@@ -152,18 +152,34 @@ func c10File(msgs []*ref.Msg, wrap int) string {
 		src := ref.FileSrc(f, ref.Layout{}, nil)
 		// cut the message out of the printed template
 		s := src[strings.Index(src, "{msg") : strings.LastIndex(src, "{/msg}")+len("{/msg}")]
-		switch (wrap + i) % 4 {
+		switch (wrap + i) % 12 {
 		case 1:
 			s = "{if $a}" + s + "{/if}"
 		case 2:
 			s = "some text before {$b} " + s + " and after"
 		case 3:
 			s = "{foreach $q in [1,2]}" + s + "{/foreach}"
+		case 4:
+			s = fmt.Sprintf("{let $w%d}%s{/let}{$w%d}", i, s, i)
+		case 5:
+			s = "{call .callee}{param p}" + s + "{/param}{/call}"
+		case 6:
+			s = "{switch 1}{case 1}" + s + "{/switch}"
+		case 7:
+			s = "{if $a}x{else}" + s + "{/if}"
+		case 8:
+			s = "{foreach $q in $a}x{ifempty}" + s + "{/foreach}"
+		case 9:
+			s = "{log}" + s + "{/log}"
+		case 10:
+			s = "{for $i in range(2)}" + s + "{/for}"
+		case 11:
+			s = fmt.Sprintf("{if $a}{foreach $q in [1]}{call .callee}{param p}{let $w%d}%s{/let}{$w%d}{/param}{/call}{/foreach}{/if}", i, s, i)
 		}
 		w.WriteString(s + "\n")
 	}
 	b.WriteString(w.String())
-	b.WriteString("{/template}\n{template .callee}callee{/template}\n")
+	b.WriteString("{/template}\n/** @param? p */\n{template .callee}callee{$p ?: ''}{/template}\n")
 	return b.String()
 }
 
@@ -319,7 +335,8 @@ func init() {
 				}
 			}
 			// (b) invariance
-			for v := 1; v <= 3; v++ {
+			for v0 := 1; v0 <= 4; v0++ {
+				v := v0*5 + int(seed%12)
 				m2 := c10Msg(fw.NewRand(seed))
 				m2.Desc = "another description entirely " + strconv.Itoa(v)
 				sib1, sib2 := c10Msg(fw.NewRand(seed+uint64(v))), c10Msg(fw.NewRand(seed+uint64(v)+77))
